@@ -87,51 +87,36 @@ def refRevDeriv (B : Backend) (f : F) (x dy : L) : Res (L × L) := do
   let g := cols.map (fun col => (List.zipWith (fun d o => (d * o.2) % W) dy col).foldl (fun a b => (a + b) % W) 0)
   pure (base.map (·.1), g)
 
-def runIns (f : LF) (vars : List VarH) (ins : Sx) : Option (Res (LF × List VarH)) :=
-  match ins with
-  | .l [.s "bin", .n o, .n a, .n b] => some (do
-      let x ← getVar vars a; let y ← getVar vars b
-      let (f', rs) ← varOperation f [x, y] [x.label] o
-      pure (f', vars ++ rs))
-  | .l [.s "un", .n o, .n a] => some (do
-      let x ← getVar vars a
-      let (f', rs) ← varOperation f [x] [x.label] o
-      pure (f', vars ++ rs))
-  | .l [.s "op", .n lab, args, .n r] => do
-      let args : L ← dec args
-      pure (do
-        let av ← args.mapM (getVar vars)
-        let (f', rs) ← varOperation f av ((List.range r).map (fun k => (lab + k) % 3)) lab
-        pure (f', vars ++ rs))
-  | .l [.s "fnop", .n lab, args] => do
-      let args : L ← dec args
-      pure (do
-        let av ← args.mapM (getVar vars)
-        let (f', rs) ← varOperation f av [lab % 3] lab
-        pure (f', vars ++ rs))
-  | _ => none
+/-- translate the wire form of a Var program into `VarIns`, computing the result labels the
+    operator overloads choose (binary/unary operators: the label of the LEFT operand) -/
+def toVarIns (labels : List Nat) : List Sx → Option (List VarB.VarIns)
+  | [] => some []
+  | ins :: rest =>
+    match ins with
+    | .l [.s "bin", .n o, .n a, .n b] =>
+      let rl := labels.getD a 0
+      (toVarIns (labels ++ [rl]) rest).map (VarB.VarIns.op o [a, b] [rl] :: ·)
+    | .l [.s "un", .n o, .n a] =>
+      let rl := labels.getD a 0
+      (toVarIns (labels ++ [rl]) rest).map (VarB.VarIns.op o [a] [rl] :: ·)
+    | .l [.s "op", .n lab, args, .n r] =>
+      match (dec args : Option L) with
+      | some args =>
+        let rls := (List.range r).map (fun k => (lab + k) % 3)
+        (toVarIns (labels ++ rls) rest).map (VarB.VarIns.op lab args rls :: ·)
+      | none => none
+    | .l [.s "fnop", .n lab, args] =>
+      match (dec args : Option L) with
+      | some args => (toVarIns (labels ++ [lab % 3]) rest).map (VarB.VarIns.op lab args [lab % 3] :: ·)
+      | none => none
+    | _ => none
 
+/-- `build`: `Ok(term)` unless a variable handle outlives the builder (modelled by the flag) -/
 def varBuild (nIn : Nat) (prog : List Sx) (outs : L) (leak : Bool) : Option (Res (Bool × LF)) := do
-  let (f0, inputs) := (List.range nIn).foldl (fun (acc : LF × List VarH) i =>
-    let (f', v) := varNew acc.1 (i % 3)
-    (f', acc.2 ++ [v])) ((LOHG.empty : LF), [])
-  let step := fun (acc : Option (Res (LF × List VarH))) (ins : Sx) =>
-    match acc with
-    | some (.ok (f, vars)) => runIns f vars ins
-    | other => other
-  let r ← prog.foldl step (some (.ok (f0, inputs)))
-  pure (do
-    let (f, vars) ← r
-    let outv ← outs.mapM (getVar vars)
-    let (f1, srcs) ← inputs.foldlM (fun (acc : LF × L) v => do
-      let (f', n) ← varNewSource acc.1 v
-      pure (f', acc.2 ++ [n])) (f, [])
-    let f1 := { f1 with sources := srcs }
-    let (f2, tgts) ← outv.foldlM (fun (acc : LF × L) v => do
-      let (f', n) ← varNewTarget acc.1 v
-      pure (f', acc.2 ++ [n])) (f1, [])
-    let f2 := { f2 with targets := tgts }
-    pure (!(leak && !vars.isEmpty), f2))
+  let inLabels := (List.range nIn).map (· % 3)
+  let p ← toVarIns inLabels prog
+  let nvars := p.foldl (fun n i => match i with | .op _ _ rs => n + rs.length) nIn
+  pure ((VarB.varBuildProg inLabels p outs).bind fun f => .ok (!(leak && nvars > 0), f))
 
 def forgetFunctor : LFunctor Nat Nat Nat Nat := ⟨fun o => [o], Var.forgetOperation 99⟩
 def forgetMonoFunctor : LFunctor Nat Nat Nat Nat := ⟨fun o => [o], Var.forgetMonogamousOperation 99⟩
